@@ -79,7 +79,7 @@ P = {
          "The esds descriptor tree (ES_Descriptor, DecoderConfigDescriptor with both bitrates, AudioSpecificConfig, SLConfigDescriptor) is byte-exact on the encode side and decoded functionally for well-formed chains; lemma_esds_roundtrip / lemma_mp4a_roundtrip / lemma_avc1_roundtrip / lemma_hdlr_roundtrip / lemma_stsd_roundtrip prove that the reference bytes of what the muxer builds decode to the same values; "
          "Mp4TrackWriter::new is proved to build exactly those shapes with the configured values, write_end to change nothing of the sample description but bufferSizeDB; hdlr, stsd, stbl ... moov encoders are byte-exact. "
          "Mp4Writer::write_end's postcondition (mw_final) names the finished file: pending chunks flushed in track order, mdat size patched, moov = byte-exact encoding of the finished tracks. "
-         lemma_trak_roundtrip / lemma_moov_roundtrip / lemma_file_roundtrip prove at specification level that the reader's relations hold on those bytes for the same (normalised) values. "
+         "lemma_trak_roundtrip / lemma_moov_roundtrip / lemma_file_roundtrip prove at specification level that the reader's relations hold on those bytes for the same (normalised) values. "
          "Level 'other': the link from trak_of_track to the hypothesis moov_muxed of that lemma, and the survival of the ftyp / mdat prefix through write_sample, are not stated as contracts."),
    note=TRUST),
  'C15': dict(claim=True, cat='proof', technique='Verus frame conditions + postconditions that are functions of (tables, stream data, arguments)',
